@@ -27,7 +27,7 @@ EXPLANATION = (
     "AssertionError); assertion messages cannot themselves raise."
 )
 NOT_DECIDED = "implicit exceptions raised inside pandas/numpy (KeyError/TypeError) cannot be excluded statically"
-FLOORS = {"R-check-before-replace": 4, "R-default-formula": 2, "R-nan-assert": 3, "R-label-alignment": 2, "R-total-cover": 3, "R-missing-columns": 2, "R-names-feature": 2, "R-assert-only": 2, "R-index-kept": 1, "R-forward-sentinels": 8, "R-numeric-only-call": 4}
+FLOORS = {"R-json-keys": 3, "R-check-before-replace": 4, "R-default-formula": 2, "R-nan-assert": 3, "R-label-alignment": 2, "R-total-cover": 3, "R-missing-columns": 2, "R-names-feature": 2, "R-assert-only": 2, "R-index-kept": 1, "R-forward-sentinels": 8, "R-numeric-only-call": 4}
 
 
 def rule_check_before_replace(ctx):
@@ -233,9 +233,10 @@ def check(ctx):
     rule_check_before_replace(ctx)
     rule_default_formula(ctx)
     rule_nan_assert(ctx)
-    from . import c04
+    from . import c04, c06
 
     c04.rule_label_alignment(ctx)
+    c06.rule_json_keys(ctx)  # a reloaded object must treat unseen data like the fitted one (str_default, str_nan ...)
     rule_total_cover(ctx)
     rule_missing_columns(ctx)
     rule_names_feature(ctx)
